@@ -236,10 +236,36 @@ reg("C08", ["c08_regp_emit.c"],
          "requests and the payload acknowledgement. Each emission is compared octet for octet with the reference "
          "encoder and then received by a peer instance. A signature is a (unit, round); evaluations counts emissions.")
 
+reg("C07", ["c07_regp_corrupt.c"], level="fault_enumeration",
+    rule="'mutate': corpus from the reference encoder (serial options): read requests, write requests and read "
+         "acknowledgements in 8/16-bit semantics with 0,1,2,5 words (quick) / 0..40 words (thorough), write and read "
+         "responses of every code, both meta messages. Per frame, on the serial channel: every single-bit flip; "
+         "two-bit flips behind the first header word (all pairs for short frames and in thorough, else pairs <= 17 "
+         "bits apart plus a seeded sample); every burst of length 2..16 at every bit offset behind the first word "
+         "(first and last bit flipped, all interior patterns up to length 6, three random ones beyond); every "
+         "truncation length; extension by 1..4 octets. The mutation is applied to the raw frame, then SLIP-encoded. "
+         "'options': on both transports 600 generated frames per unit with every combination of the three option "
+         "bits, correct or damaged checksums, one octet extra/short, and 600 arbitrary octet strings. A signature is "
+         "a unit; evaluations counts mutated/generated frames judged.",
+    assumptions=["reading choices of the reference decoder (DESIGN.md section 7, C07): a checksum field occupies a "
+                 "header word only if its option bit is set; the header checksum covers the six fixed words plus the "
+                 "payload-checksum word when present; an odd number of payload octets under 16-bit semantics is an "
+                 "implausible size; read requests and meta messages carry no payload, all other types carry block size "
+                 "x word size octets"])
+
 SAN_NOTE = ("Trusted: gcc 12 ASan/UBSan runtime, the harness' reference model, the fork-per-unit runner. "
             "Assumes little-endian x86-64; decides only the executions listed in the evidence file.")
 
 MANIFEST_TEXT = {
+    "C07": dict(
+        technique="runtime monitoring + fault enumeration: exhaustive bit-level mutation of reference-encoded frames fed through the real receiver; backend call log and reply stream observed; receiver verdict compared with an independent decoder written from the protocol document; ASan/UBSan",
+        text="Every listed corruption of every corpus frame is actually received and processed by the real code; the "
+             "backend log must stay empty and no acknowledgement may appear - observed, not derived from CRC theory. "
+             "The receiver's error classification must equal the reference decoder's (header encoding, header "
+             "checksum, payload size, payload checksum, in that precedence) and the reply must be the prescribed meta "
+             "message or error response. Option-bit combinations and arbitrary octet strings extend this to both "
+             "transports, including frames that declare a payload checksum without a header checksum.",
+        note=SAN_NOTE),
     "C08": dict(
         technique="runtime monitoring: every emit entry point compared octet for octet with an independent reference encoder (big-endian header, bitwise CRC-16/ARC, SLIP / varint framing) and round-tripped through the library's own receiver; ASan/UBSan",
         text="The wire image of every emission must equal what the protocol document prescribes as rendered by the "
